@@ -539,6 +539,110 @@ def stage_r_header(rep, rng, names, n):
     rep.stage('R:rule header / patsubst', headers=done, patsubst=len(cases), disagreements=bad)
 
 
+def stage_depfile(rep, rng, names, n):
+    """builtins/find.py write_depfile (the Makefile fragment .bfg_find_deps): W tie of the text against
+    MakeDepfile.depfile_text, and the property on the real code: the fragment written by the real write_depfile for real
+    directories with special names is included by a reference Makefile and run by the real make - the output is up to
+    date after a build, touching ANY of the walked directories re-runs the step, and a directory that is removed
+    afterwards neither stops Make nor goes unnoticed (that is what the second, target-side spelling of every directory is
+    for).  Directories inside the guard dir_ok of C04_depfile_rt (representable as target and as prerequisite)."""
+    import types, time
+    from bfg9000.builtins.find import write_depfile
+    from bfg9000.path import Path, Root
+    _, us = gen.uni_tables()
+    d = common.scratch('c04dep')
+    calls, impl = [], []
+    bad = 0
+    try:
+        src, bld = os.path.join(d, 's r'), os.path.join(d, 'bld')
+        os.makedirs(src); os.makedirs(bld)
+        env = types.SimpleNamespace(base_dirs={Root.srcdir: Path(src, Root.absolute), Root.builddir: Path(bld, Root.absolute)})
+        roots = dict(env.base_dirs); roots[Root.builddir] = None
+        pool = [x for x in names if not x.startswith('~') and x not in ('.', '..')]
+        for k in range(n):
+            picked = rng.sample(pool, rng.randint(1, 4))
+            if k < 6:
+                picked = [['opt|x', 'plain'], ['a b', 'c#d'], ['x:y'], ['p|q', 'r|s', 't'], ['d,e', 'f@g'], ["q'r", 'u"v']][k]
+            try:
+                dirs = [Path(x, Root.srcdir, directory=True) for x in picked] + \
+                       ([Path('gen/' + picked[0], Root.builddir, directory=True)] if rng.random() < 0.4 else [])
+            except ValueError:
+                continue
+            makeify = rng.random() < 0.8 or k < 6
+            out = Path('out', Root.builddir)
+            write_depfile(env, Path('.bfg_find_deps', Root.builddir), out, dirs, makeify=makeify)
+            text = open(os.path.join(bld, '.bfg_find_deps'), encoding='utf-8', errors='surrogateescape').read()
+            dstrs = [x.string(roots) for x in dirs]
+            calls.append(('make.depfile_text', [us, out.string(roots), dstrs, makeify])); impl.append(text)
+            rep.case('depfile:%r:%r' % (picked, makeify), True)
+            if not makeify:
+                continue
+            ok = common.model_batch([('make.name_ok', [us, x]) for x in dstrs] + [('make.ar_free', [dstrs])] +
+                                    [('make.ar_free', [[x]]) for x in dstrs])
+            nd = len(dstrs)
+            if not (all(d_bool(r[0]) and d_bool(r[1]) for r in ok[:nd]) and all(d_bool(r) for r in ok[nd:])) or any('$' in x for x in dstrs):
+                rep.count('depfile:directory outside dir_ok (oracle not run)')
+                continue
+            # ---- the real make on the real fragment
+            for x in dirs:
+                os.makedirs(x.string(env.base_dirs), exist_ok=True)
+            for f in ('out', 'LOG'):
+                if os.path.exists(os.path.join(bld, f)):
+                    os.remove(os.path.join(bld, f))
+            with open(os.path.join(bld, 'Makefile'), 'w') as f:
+                f.write('all: out\nout:\n\t@echo RAN >> LOG\n\t@touch out\ninclude .bfg_find_deps\n')
+
+            def mk():
+                p = subprocess.run(['make', '--no-print-directory'], cwd=bld, env={'PATH': '/usr/bin:/bin', 'LC_ALL': 'C.UTF-8'},
+                                   capture_output=True, timeout=20)
+                log = os.path.join(bld, 'LOG')
+                ran = open(log).read().count('RAN') if os.path.exists(log) else 0
+                if os.path.exists(log):
+                    os.remove(log)
+                return p.returncode, ran, (p.stdout + p.stderr).decode('utf-8', 'replace')[-300:]
+            now = time.time()
+            hist = []
+            why = None
+            for x in dirs:
+                os.utime(x.string(env.base_dirs), (now - 1000, now - 1000))
+            hist.append(('build',) + mk())
+            if hist[-1][:3] != ('build', 0, 1):
+                why = 'the first build does not run the step exactly once'
+            if why is None:
+                os.utime(os.path.join(bld, 'out'), (now - 500, now - 500))
+                hist.append(('again',) + mk())
+                if hist[-1][:3] != ('again', 0, 0):
+                    why = 'the step is not up to date after the build'
+            for x in (dirs if why is None else []):
+                os.utime(os.path.join(bld, 'out'), (now - 500, now - 500))
+                os.utime(x.string(env.base_dirs), (now - 100, now - 100))
+                hist.append(('touch %s' % x.string(roots),) + mk())
+                os.utime(x.string(env.base_dirs), (now - 1000, now - 1000))
+                if hist[-1][1:3] != (0, 1):
+                    why = 'a change of the walked directory %r is not noticed' % x.string(roots)
+                    break
+            if why is None:
+                victim = rng.choice(dirs)
+                shutil.rmtree(victim.string(env.base_dirs))
+                os.utime(os.path.join(bld, 'out'), (now - 500, now - 500))
+                hist.append(('remove %s' % victim.string(roots),) + mk())
+                if hist[-1][1:3] != (0, 1):
+                    why = 'after the walked directory %r was removed make %s' % (
+                        victim.string(roots), 'stops' if hist[-1][1] != 0 else 'does not re-run the step')
+            rep.count('depfile:make histories')
+            if why:
+                bad += rep.fail('find_files depfile for directories %r: %s (history %r); fragment %r' % (dstrs, why, [h[:3] for h in hist], text),
+                                {'kind': 'depfile', 'directories': dstrs, 'fragment': text, 'history': hist, 'why': why})
+            for x in dirs:
+                shutil.rmtree(x.string(env.base_dirs), ignore_errors=True)
+            shutil.rmtree(os.path.join(bld, 'gen'), ignore_errors=True)
+    finally:
+        shutil.rmtree(d, ignore_errors=True)
+    dis = common.compare_model(rep, 'W:write_depfile', calls, impl, lambda name, r: d_str(r))
+    rep.stage('depfile', fragments=len(calls), oracle_failures=bad)
+    return dis, bad
+
+
 def run(rep):
     rng = random.Random(rep.seed)
     thorough = rep.tier == 'thorough'
@@ -549,7 +653,9 @@ def run(rep):
     dis = stage_w(rep, rng, names)
     dis += stage_w_rule(rep, rng, names, 400 if thorough else 120)
     stage_r_header(rep, rng, names, 150 if thorough else 30)
-    found = stage_make(rep, rng, names)
+    dis_d, found = stage_depfile(rep, rng, names, 200 if thorough else 40)
+    dis += dis_d
+    found += stage_make(rep, rng, names)
     found += stage_make_recipe_names(rep, rng, names if thorough else names[::3])
     found += stage_call_names(rep, rng, names if thorough else names[1::3])
     found += stage_ninja(rep, rng, names)
